@@ -17,7 +17,7 @@ func C(wrap int, args ...interface{}) string {
 	buf := &bytes.Buffer{}
 
 	for s.Scan() {
-		fmt.Fprintln(buf, commentPrefix, s.Text())
+		fmt.Fprintln(buf, commentPrefix, strings.Join(strings.Fields(s.Text()), " "))
 	}
 
 	return buf.String()
